@@ -47,3 +47,17 @@ Definition is_partition (N : nat) (idx : list (list nat)) : bool :=
   forallb (fun t => (count_in t idx =? 1)%nat) (seq 0 N).
 Definition no_empty_step (idx : list (list nat)) : bool :=
   forallb (fun ids => negb (length ids =? 0)%nat) idx.
+
+(* StepExpansion.__init__ after the minimal repair fixes/C13_step_partition_minimal.diff: the same loop and the same
+   binary64 arithmetic, run on the node NUMBERS 0.0, 1.0, ..., N-1.0 instead of the node coordinates *)
+Definition step_indices_nodes (N n : nat) : list (list nat) := step_indices_F (map f_nat (seq 0 N)) n.
+(* a repaired tree (either patch): the node-number partition, and the float loop on node numbers gives it *)
+Definition check_step_init_fixed (N n : nat) (observed : list (list nat)) : bool :=
+  natll_eqb observed (step_indices_ideal N n) && natll_eqb observed (step_indices_nodes N n).
+
+(* a grid whose node coordinates are x0 + k*h computed in binary64 (exact when x0, h are dyadic with few bits) *)
+Definition fgrid (x0 h : float) (N : nat) : list float := map (fun k => PrimFloat.add x0 (PrimFloat.mul (f_nat k) h)) (seq 0 N).
+(* offsets x spacings with short binary expansions: (x0, h) in {0, -4, 3/8, 1, -5/8, 1024+1/8} x {1, 1/2, 1/4, 2, 3, 3/8} *)
+Definition dyadic_family : list (float * float) :=
+  flat_map (fun x0 => map (fun h => (x0, h)) [1%float; 0.5%float; 0.25%float; 2%float; 3%float; 0.375%float])
+           [0%float; (-4)%float; 0.375%float; 1%float; (-0.625)%float; 1024.125%float].
